@@ -186,7 +186,7 @@ def build_harness(name, spec):
     variant = spec.get("variant", "fast")
     cxx, vflags = VARIANTS[variant]
     srcs = [os.path.join(VERIF, s) for s in spec["src"]]
-    deps = srcs + engine_files() + [os.path.join(VERIF, s) for s in spec.get("deps", [])]
+    deps = srcs + engine_files() + [os.path.join(VERIF, s) for s in spec.get("deps", []) + spec.get("shared", [])]
     flags = COMMON + vflags + spec.get("flags", [])
     h = _hash_files(deps + repo_files(), REPO + " ".join(flags))
     d = os.path.join(BUILD, "h-%s-%s-%s" % (name, variant, h))
